@@ -1703,15 +1703,26 @@ class NetCDFRead(IORead):
                         # index variable
                         g["do_not_create_field"].add(ncvar)
 
-                if (
-                    sample_dimension is not None
-                    and instance_dimension is not None
-                ):
-                    # ------------------------------------------------
-                    # There are DSG indexed contiguous ragged arrays
-                    # ------------------------------------------------
+                # ----------------------------------------------------
+                # DSG indexed contiguous ragged arrays: every count
+                # variable whose dimension is also spanned by an index
+                # variable
+                # ----------------------------------------------------
+                for sample_dimension, c in tuple(g["compression"].items()):
+                    contiguous = c.get("ragged_contiguous")
+                    if contiguous is None:
+                        continue
+
+                    indexed = (
+                        g["compression"]
+                        .get(contiguous["profile_dimension"], {})
+                        .get("ragged_indexed")
+                    )
+                    if indexed is None:
+                        continue
+
                     self._parse_indexed_contiguous_compression(
-                        sample_dimension, instance_dimension
+                        sample_dimension, indexed["implied_ncdimensions"][0]
                     )
 
         # ------------------------------------------------------------
